@@ -4,6 +4,13 @@ import json, os, sys
 ROOT = os.path.dirname(os.path.dirname(os.path.abspath(__file__)))
 
 CHECKS = {
+ "C02": dict(
+   engine="simnet",
+   category="exploration",
+   text="Generated pipelines x interpreted handler/body programs (status incl. 204/304, Bytes / SizedStream exact-short-long / BodyStream / custom MessageBody with size hints, empty chunks, Pending patterns, failure at end, echo of the request body, user-set framing headers, no_chunking, force_close) x arrival timings x write-buffer sizes run on the real dispatcher; the written bytes are decoded by an independent strict client-side parser that is told the request methods, and each response is compared with what its own (request, program) pair determines (status, version, 100-continue count, exact body, Connection header, termination on failing/short bodies). One request per case is re-run alone on a fresh connection and must yield the same status line, framing headers and body (independence). ~5*10^4 (quick) to 1.5*10^6 (thorough) cases; the overlap window (next request dispatched before the previous response is written) is measured and required for non-triviality.",
+   note="Trusts the independent response parser and the body-program model in harness/src/{httpwire,h1engine}.rs. Only the last request of a pipeline may close, leave its body unread or fail its body (C03 owns close discipline). Handler misuse outside documented contracts (both framing headers set by hand, BodySize::None with a body status) is outside the domain. Listed findings exclude their class by construction (counted).",
+   technique="property-based testing against an independent reference parser + per-request metamorphic (solo vs pipelined) relation",
+   design_ref="DESIGN.md §5 C02"),
  "C01": dict(
    engine="simnet",
    category="exploration",
